@@ -149,3 +149,19 @@ Proof.
   apply trim_ne_good.
 Qed.
 Print Assumptions trim_contract.
+
+(* where the cuts fall (fix D48): before the two whole-delimiter absorptions, the prefix cut and the suffix cut each either vanish or
+   stand at a place that does not halve a ** delimiter and leaves the trimmed context with balanced ** and _ counts *)
+Lemma back_spec P k : back P k = 0 \/ P (back P k) = false.
+Proof. induction k as [|k IH]; cbn [back]; [now left|]. destruct (P (S k)) eqn:E; [exact IH|right; exact E]. Qed.
+Theorem trim_cuts isspace t n : t <> [] -> n <> [] ->
+  exists p s, trim isspace t n = absorb t n [c_us] (absorb t n [c_star; c_star] (p, s))
+    /\ (p = 0 \/ (unbalanced (firstn p t) = false /\ splits_star t p = false))
+    /\ (s = 0 \/ (unbalanced (lastn s t) = false /\ splits_star t (length t - s) = false)).
+Proof. intros Ht Hn. destruct t as [|a t']; [contradiction|]. destruct n as [|b n']; [contradiction|].
+  unfold trim, trim_ne. eexists. eexists. split; [reflexivity|]. split.
+  - match goal with |- back ?P ?k = 0 \/ _ => destruct (back_spec P k) as [H|H]; [now left|right] end.
+    now apply orb_false_iff in H.
+  - match goal with |- (if ?c then 0 else ?s2) = 0 \/ _ => destruct c; [now left|] end.
+    match goal with |- back ?P ?k = 0 \/ _ => destruct (back_spec P k) as [H|H]; [now left|right] end.
+    now apply orb_false_iff in H. Qed.
